@@ -159,3 +159,20 @@ Theorem C18_connected_first : forall rc sc tr,
     forallb quiet mid = true -> is_handler e = true -> e = EConn.
 Proof. exact k_order_connected_first. Qed.
 Print Assumptions C18_connected_first.
+
+(** Round 6: the poller (a goroutine calling Poll() -- BaseClient.Poll takes the
+    current transport under c.mu and runs one read round on it outside any lock)
+    is a thread of [step]; the theorems above quantify over executions with its
+    steps in them, so Subscribe and Close return whatever Poll rounds are
+    outstanding.  The poller itself: a stalled round has a step as soon as the
+    context is cancelled or the transport it reads from has been closed, and
+    every Poll call is at most [mu_p] <= 4 poller steps long. *)
+Theorem C18_poll_round_wakes : forall s a j,
+  p_pc s = PRound a j -> (cancelled s = true \/ p_wake s = true \/ a = true) -> pstep s <> [].
+Proof. exact poll_round_wakes. Qed.
+Print Assumptions C18_poll_round_wakes.
+
+Theorem C18_poll_steps_bounded : forall s l s1,
+  In (l, s1) (pstep s) -> is_call l = false -> mu_p s1 < mu_p s.
+Proof. exact poll_steps_bounded. Qed.
+Print Assumptions C18_poll_steps_bounded.
